@@ -19,14 +19,24 @@ A primitive problem builder (contract, storage, ...) READS the two slots of the 
 on (`self.timegrid.restricted.*`, `...restricted.discount_factors`).  `Used` records what it read:
 that is the only way state can leak into a problem, all other inputs are arguments.
 
-`setupSt rederive env s call` mirrors the CURRENT code literally: every `setup_optim_problem` calls
-`self.set_timegrid(timegrid)` first, also when no grid argument is given (`rederive = true`:
-"use grid set before.  The grid object may be shared, thus set restricted grid again",
-assets.py:328-331 and the same lines in every builder).  `rederive = false` is the behaviour before
-commit 7e0d787: without grid argument the builder read whatever the slots held.
+`setupSt v env s call` mirrors the code literally; `v : Version` selects the code version, `current`
+is the tree after the repairs:
+* `rederive` (commit 7e0d787): every `setup_optim_problem` calls `self.set_timegrid(timegrid)` first,
+  also when no grid argument is given ("use grid set before.  The grid object may be shared, thus set
+  restricted grid again", assets.py:328-331 and the same lines in every builder).  `false`: without
+  grid argument the builder read whatever the slots held.
+* `scaledOwnGrid` (commit 19afd7c): a `ScaledAsset` called without grid argument hands its OWN
+  `timegrid` attribute to the base asset (`if (timegrid is None) and hasattr(self, 'timegrid'):
+  timegrid = self.timegrid`, assets.py:2496-2497).  `false`: the base asset used its own attribute.
 `setupPure env ptrs call` is what the builders SHOULD read: the asset's own window, frequency and
 wacc on the grid the call names (or, without grid argument, on the grid the asset itself was put on:
-the asset's own `timegrid` attribute is legitimate input, `ptrs`).
+the assets' own `timegrid` attributes are legitimate input, `ptrs`; a scaled asset that never saw a
+grid itself falls back to its base asset's).
+
+Known finding H3 is part of the model: `setupSplit g tmp` (`Portfolio.setup_split_optim_problem`)
+sets every interval up on a temporary grid object and then puts the portfolio and the TOP-LEVEL assets
+back on `g` (portfolio.py:293-295); wrapped assets keep the grid of the last interval, which a direct
+`setupSub` (set-up of a wrapped asset itself) without grid argument then uses.
 
 Not in this model (covered only by the history oracle `harness/comp/history.py`): Python object
 aliasing of parameter containers, pandas in-place semantics (`prices_to_grid`), the numeric content of
@@ -41,6 +51,15 @@ structure Params where
   freq  : Option Nat := none
   wacc  : Rat := 0
   deriving DecidableEq, Repr, Inhabited
+
+/-- code version switches (see the module text) -/
+structure Version where
+  rederive      : Bool := true
+  scaledOwnGrid : Bool := true
+  deriving DecidableEq, Repr
+
+/-- the tree after commits 7e0d787 and 19afd7c -/
+def current : Version := {}
 
 inductive Asset where
   | plain (p : Params)
@@ -182,19 +201,23 @@ def structuredBody (rederive : Bool) (G0 : Grids) (g : Nat) (p : Params) (inner 
   | (G2, sts, r) => (G2, (sts.zip sub).map fun so => { so.1 with start := so.2.start, stop := so.2.stop }, r)
 
 /-- `asset.setup_optim_problem(prices, timegrid = arg)` for asset number `a` -/
-def setupAsset (rederive : Bool) (env : Env) (s : PyState) (a : Nat) (arg : Option Nat) : PyState × Result :=
+def setupAsset (v : Version) (env : Env) (s : PyState) (a : Nat) (arg : Option Nat) : PyState × Result :=
   let st := s.assets a
   let upd (G : Grids) (st' : AssetSt) : PyState :=
     { s with grids := G, assets := fun i => if i = a then st' else s.assets i }
   match env.asset a with
   | .plain p =>
-    match buildPlain rederive s.grids st.grid p.start p.stop p.freq p.wacc arg with
+    match buildPlain v.rederive s.grids st.grid p.start p.stop p.freq p.wacc arg with
     | (G, ptr, r) => (upd G { st with grid := ptr }, r.map fun u => [u])
   | .scaled p base =>
     -- `op = self.base_asset.setup_optim_problem(prices, timegrid)`; `self.set_timegrid(self.base_asset.timegrid)`;
     -- the wrapper then reads `self.timegrid.restricted.dt.sum()`
     let b := st.sub.headD (subInit base)
-    match buildPlain rederive s.grids b.grid b.start b.stop base.freq base.wacc arg with
+    -- 19afd7c: `if (timegrid is None) and hasattr(self, 'timegrid'): timegrid = self.timegrid`
+    let arg' : Option Nat := match arg with
+      | some g => some g
+      | none => if v.scaledOwnGrid then st.grid else none
+    match buildPlain v.rederive s.grids b.grid b.start b.stop base.freq base.wacc arg' with
     | (G, bptr, .error e) => (upd G { st with sub := [{ b with grid := bptr }] }, .error e)
     | (G, none, .ok _) => (upd G { st with sub := [{ b with grid := none }] }, .error .noGrid)   -- unreachable: a built asset has a grid
     | (G, some g, .ok u) =>
@@ -205,45 +228,82 @@ def setupAsset (rederive : Bool) (env : Env) (s : PyState) (a : Nat) (arg : Opti
     match arg, st.grid with
     | none, none => (s, .error .noGrid)
     | none, some g =>
-      match structuredBody rederive s.grids g p inner st.sub with
+      match structuredBody v.rederive s.grids g p inner st.sub with
       | (G2, sub', r) => (upd G2 { grid := some g, sub := sub' }, r)
     | some g, _ =>
-      match structuredBody rederive (writeSlots s.grids g p.start p.stop p.freq p.wacc) g p inner st.sub with
+      match structuredBody v.rederive (writeSlots s.grids g p.start p.stop p.freq p.wacc) g p inner st.sub with
       | (G2, sub', r) => (upd G2 { grid := some g, sub := sub' }, r)
 
 /-- `Portfolio.setup_optim_problem`'s loop: every asset is called with `timegrid = self.timegrid` -/
-def setupAll (rederive : Bool) (env : Env) (g : Nat) : PyState → List Nat → PyState × Result
+def setupAll (v : Version) (env : Env) (g : Nat) : PyState → List Nat → PyState × Result
   | s, [] => (s, .ok [])
   | s, a :: rest =>
-    match setupAsset rederive env s a (some g) with
+    match setupAsset v env s a (some g) with
     | (s1, .error e) => (s1, .error e)
     | (s1, .ok us) =>
-      match setupAll rederive env g s1 rest with
+      match setupAll v env g s1 rest with
       | (s2, .ok vs) => (s2, .ok (us ++ vs))
       | (s2, .error e) => (s2, .error e)
 
 inductive Call where
   | setTimegrid (a g : Nat)                 -- `asset.set_timegrid(tg)`
   | setup (a : Nat) (arg : Option Nat)      -- `asset.setup_optim_problem(prices[, tg])`
-  | setupPortfolio (arg : Option Nat)       -- `portfolio.setup_optim_problem(prices[, tg])` (also split / cost samples)
+  | setupSub (a i : Nat) (arg : Option Nat) -- the same on the `i`-th asset WRAPPED by asset `a` (base / inner asset), called directly
+  | setupPortfolio (arg : Option Nat)       -- `portfolio.setup_optim_problem(prices[, tg])` (also cost samples)
+  | setupSplit (g : Nat) (tmp : List Nat)   -- `portfolio.setup_split_optim_problem(prices, tg, ...)`; `tmp`: the interval grid objects
   | dcf (a : Nat)                           -- `asset.dcf(op, res)`: reads `self.timegrid.T` only
   | fillLevel (a : Nat)                     -- `storage.fill_level(op, res)`: `set_restricted_grid` of its own window
   | makeSlp (g : Nat) (t : Int)             -- `make_slp(op, portf, tg, start_future, samples)`
   deriving Repr
 
-def setupPortfolioSt (rederive : Bool) (env : Env) (s : PyState) (arg : Option Nat) : PyState × Result :=
+def setupPortfolioSt (v : Version) (env : Env) (s : PyState) (arg : Option Nat) : PyState × Result :=
   let s0 : PyState := match arg with | some g => { s with pf := some g } | none => s
   match s0.pf with
   | none => (s0, .error .noGrid)
-  | some g => setupAll rederive env g s0 (List.range env.length)
+  | some g => setupAll v env g s0 (List.range env.length)
 
-def setupSt (rederive : Bool) (env : Env) (s : PyState) : Call → PyState × Result
-  | .setTimegrid a g =>
-    let p := (env.asset a).params
-    ({ s with grids := writeSlots s.grids g p.start p.stop p.freq p.wacc,
-              assets := fun i => if i = a then { s.assets a with grid := some g } else s.assets i }, .ok [])
-  | .setup a arg => setupAsset rederive env s a arg
-  | .setupPortfolio arg => setupPortfolioSt rederive env s arg
+/-- `Asset.set_timegrid(tg)` (inherited by every asset class: the wrapper's own attribute and the slots only) -/
+def setTimegridSt (env : Env) (s : PyState) (a g : Nat) : PyState :=
+  let p := (env.asset a).params
+  { s with grids := writeSlots s.grids g p.start p.stop p.freq p.wacc,
+           assets := fun i => if i = a then { s.assets a with grid := some g } else s.assets i }
+
+/-- direct set-up of the `i`-th asset wrapped by `a` -/
+def setupSubSt (v : Version) (env : Env) (s : PyState) (a i : Nat) (arg : Option Nat) : PyState × Result :=
+  let st := s.assets a
+  match st.sub[i]?, (env.asset a).subs[i]? with
+  | some b, some q =>
+    match buildPlain v.rederive s.grids b.grid b.start b.stop q.freq q.wacc arg with
+    | (G, ptr, r) =>
+      ({ s with grids := G, assets := fun j => if j = a then { st with sub := st.sub.set i { b with grid := ptr } } else s.assets j },
+       r.map fun u => [u])
+  | _, _ => (s, .ok [])        -- no such wrapped asset
+
+/-- the loop over the intervals of a split set-up: `self.setup_optim_problem(prices_tmp, timegrid_tmp, ...)` -/
+def setupIntervals (v : Version) (env : Env) : PyState → List Nat → PyState × Result
+  | s, [] => (s, .ok [])
+  | s, t :: ts =>
+    match setupAll v env t { s with pf := some t } (List.range env.length) with
+    | (s1, .error e) => (s1, .error e)
+    | (s1, .ok us) =>
+      match setupIntervals v env s1 ts with
+      | (s2, .ok vs) => (s2, .ok (us ++ vs))
+      | (s2, .error e) => (s2, .error e)
+
+/-- `for a in self.assets: a.set_timegrid(timegrid)` — top-level assets only (portfolio.py:294-295) -/
+def restoreTop (env : Env) (g : Nat) : PyState → List Nat → PyState
+  | s, [] => s
+  | s, a :: rest => restoreTop env g (setTimegridSt env s a g) rest
+
+def setupSt (v : Version) (env : Env) (s : PyState) : Call → PyState × Result
+  | .setTimegrid a g => (setTimegridSt env s a g, .ok [])
+  | .setup a arg => setupAsset v env s a arg
+  | .setupSub a i arg => setupSubSt v env s a i arg
+  | .setupPortfolio arg => setupPortfolioSt v env s arg
+  | .setupSplit g tmp =>
+    match setupIntervals v env s tmp with
+    | (s1, .error e) => (s1, .error e)          -- an exception leaves everything on the interval grid
+    | (s1, .ok us) => (restoreTop env g { s1 with pf := some g } (List.range env.length), .ok us)
   | .dcf _ => (s, .ok [])
   | .fillLevel a =>
     let p := (env.asset a).params
@@ -253,25 +313,27 @@ def setupSt (rederive : Bool) (env : Env) (s : PyState) : Call → PyState × Re
   | .makeSlp g t =>
     -- future / present split on the caller's grid object, then `portf.create_cost_samples(samples, timegrid)`
     let s1 : PyState := { s with grids := writeRestricted (writeRestricted s.grids g (some t, none, none)) g (none, some t, none) }
-    let r := setupPortfolioSt rederive env s1 (some g)
+    let r := setupPortfolioSt v env s1 (some g)
     (r.1, r.2.map fun _ => [])
 
-def run (rederive : Bool) (env : Env) (s : PyState) : List Call → PyState
+def run (v : Version) (env : Env) (s : PyState) : List Call → PyState
   | [] => s
-  | c :: cs => run rederive env (setupSt rederive env s c).1 cs
+  | c :: cs => run v env (setupSt v env s c).1 cs
 
 /-- reachable: the state after any finite call sequence on freshly constructed objects -/
-def Reachable (rederive : Bool) (env : Env) (s : PyState) : Prop :=
-  ∃ calls, s = run rederive env (init env) calls
+def Reachable (v : Version) (env : Env) (s : PyState) : Prop :=
+  ∃ calls, s = run v env (init env) calls
 
 /-! ## what the builders should read -/
 
-/-- the assets' own `timegrid` attributes: legitimate input of a call without grid argument -/
+/-- the objects' own `timegrid` attributes: legitimate input of a call without grid argument -/
 structure Ptrs where
   asset : Nat → Option Nat
+  sub   : Nat → Nat → Option Nat       -- wrapped assets
   pf    : Option Nat
 
-def ownPtrs (s : PyState) : Ptrs := { asset := fun a => (s.assets a).grid, pf := s.pf }
+def ownPtrs (s : PyState) : Ptrs :=
+  { asset := fun a => (s.assets a).grid, sub := fun a i => (s.assets a).sub[i]?.bind (·.grid), pf := s.pf }
 
 def usedOf (g : Nat) (start stop : Option Int) (freq : Option Nat) (wacc : Rat) : Used :=
   { grid := g, restricted := some (start, stop, freq), disc := some wacc }
@@ -282,19 +344,40 @@ def pureAsset (x : Asset) (g : Nat) : List Used :=
   | .scaled p b => [usedOf g b.start b.stop b.freq b.wacc, usedOf g p.start p.stop p.freq p.wacc]
   | .structured p inner => inner.map fun q => usedOf g (clipStart q.start p.start) (clipStop q.stop p.stop) q.freq q.wacc
 
+/-- "the grid set before" of asset `a`: its own attribute; a scaled asset without one works on its base asset's -/
+def ownGrid (env : Env) (ptrs : Ptrs) (a : Nat) : Option Nat :=
+  match ptrs.asset a with
+  | some g => some g
+  | none => match env.asset a with
+    | .scaled _ _ => ptrs.sub a 0
+    | _ => none
+
 def setupPure (env : Env) (ptrs : Ptrs) : Call → Result
   | .setup a arg =>
-    match (match arg with | some g => some g | none => ptrs.asset a) with
+    match (match arg with | some g => some g | none => ownGrid env ptrs a) with
     | some g => .ok (pureAsset (env.asset a) g)
     | none => .error .noGrid
+  | .setupSub a i arg =>
+    match (env.asset a).subs[i]? with
+    | none => .ok []
+    | some q =>
+      match (match arg with | some g => some g | none => ptrs.sub a i) with
+      | some g => .ok [usedOf g q.start q.stop q.freq q.wacc]
+      | none => .error .noGrid
   | .setupPortfolio arg =>
     match (match arg with | some g => some g | none => ptrs.pf) with
     | some g => .ok ((List.range env.length).flatMap fun a => pureAsset (env.asset a) g)
     | none => .error .noGrid
+  | .setupSplit _ tmp => .ok (tmp.flatMap fun t => (List.range env.length).flatMap fun a => pureAsset (env.asset a) t)
   | .setTimegrid _ _ => .ok []
   | .dcf _ => .ok []
   | .fillLevel a => match ptrs.asset a with | some _ => .ok [] | none => .error .noGrid
   | .makeSlp _ _ => .ok []
+
+/-- what the documentation promises about the grid attributes after a call that names a grid: the portfolio, every
+    asset and every wrapped asset sit on `g` (used to state finding H3) -/
+def AllOn (env : Env) (s : PyState) (g : Nat) : Prop :=
+  s.pf = some g ∧ ∀ a, a < env.length → (s.assets a).grid = some g ∧ ∀ b ∈ (s.assets a).sub, b.grid = some g
 
 /-! ## interval data: the normal form `values_to_grid` used to leave behind in the caller's dict -/
 
